@@ -408,3 +408,115 @@ Proof.
     + reflexivity.
     + rewrite app_length in Hfuel. simpl in Hfuel. lia.
 Qed.
+
+(* ---------------------------------------------------------------- GetRangeByScore, Count *)
+Lemma lget_range_by_score_sim l z0 st min max reverse : Sim l z0 -> Inv z0 st ->
+  lget_range_by_score l min max reverse = get_range_by_score z0 min max reverse.
+Proof.
+  intros (L & HI & HT & EL & ED) HInv. pose proof HInv as (Hs & _). rewrite <- EL in Hs.
+  unfold lget_range_by_score, get_range_by_score.
+  destruct (min >? max); [reflexivity|]. rewrite <- EL.
+  assert (Hfuel : forall X : list lnode, (length X <= length L)%nat -> (length X < fuel_of (lz l))%nat).
+  { intros X HX. unfold fuel_of. rewrite (inv_len (lz l) _ HI). lia. }
+  destruct reverse.
+  - destruct (llast_in_range_spec (lz l) L min max HI Hs) as (X & Y & E & -> & ->).
+    pose proof HI as HI2. rewrite E in HI2.
+    rewrite (lwalk_while_bwd (lz l) min (fuel_of (lz l)) X Y HI2); [reflexivity|].
+    apply Hfuel. rewrite E, app_length. lia.
+  - destruct (lfirst_in_range_spec (lz l) L min max HI Hs) as (Pre & F & E & -> & ->).
+    pose proof HI as HI2. rewrite E in HI2.
+    rewrite (lwalk_while_fwd (lz l) max F Pre (fuel_of (lz l)) HI2); [reflexivity|].
+    apply Hfuel. rewrite E, app_length. lia.
+Qed.
+
+Lemma lcount_sim l z0 st min max : Sim l z0 -> Inv z0 st ->
+  lcount l min max = OInt (count z0 min max).
+Proof.
+  intros (L & HI & HT & EL & ED) HInv. pose proof HInv as (Hs & _). rewrite <- EL in Hs.
+  unfold lcount, count.
+  destruct (min >? max); [reflexivity|]. rewrite <- EL.
+  assert (Hlen : llen (lz l) = zlen (map ent L)).
+  { rewrite (inv_len (lz l) _ HI). unfold zlen. rewrite map_length. reflexivity. }
+  destruct (lfirst_in_range_spec (lz l) L min max HI Hs) as (Pre & F & E & -> & ->).
+  destruct F as [|f R']; [reflexivity|]. cbn [head_ref nref map].
+  assert (Hf : In f L) by (rewrite E; apply in_or_app; right; left; reflexivity).
+  rewrite (lscore_node' (lz l) L f HI Hf).
+  pose proof HI as HI1. rewrite E in HI1. pose proof Hs as Hs1. rewrite E in Hs1.
+  rewrite (lget_rank_spec (lz l) Pre f R' HI1 Hs1).
+  assert (Hr1 : zsl_rank (map ent L) (score (ent f)) (member (ent f)) = Z.of_nat (length Pre) + 1).
+  { rewrite E, map_app. cbn [map]. rewrite (zsl_rank_at (map ent Pre) (ent f) (map ent R')).
+    - unfold zlen. rewrite map_length. reflexivity.
+    - rewrite E, map_app in Hs. exact Hs. }
+  rewrite Hr1, Hlen.
+  destruct (llast_in_range_spec (lz l) L min max HI Hs) as (X & Y & E2 & -> & ->).
+  destruct (rev X) as [|t r] eqn:Er.
+  - assert (X = []) as -> by (rewrite <- (rev_involutive X), Er; reflexivity). reflexivity.
+  - assert (EX : X = rev r ++ [t]) by (rewrite <- (rev_involutive X), Er; reflexivity).
+    unfold last_or. rewrite Er. rewrite <- map_rev, Er. cbn [map nref].
+    assert (Ht : In t L) by (rewrite E2, EX; apply in_or_app; left; apply in_or_app; right; left; reflexivity).
+    rewrite (lscore_node' (lz l) L t HI Ht).
+    assert (E3 : L = rev r ++ t :: Y) by (rewrite E2, EX, <- app_assoc; reflexivity).
+    pose proof HI as HI3. rewrite E3 in HI3. pose proof Hs as Hs3. rewrite E3 in Hs3.
+    rewrite (lget_rank_spec (lz l) (rev r) t Y HI3 Hs3).
+    assert (Hr2 : zsl_rank (map ent L) (score (ent t)) (member (ent t)) = Z.of_nat (length (rev r)) + 1).
+    { rewrite E3, map_app. cbn [map]. rewrite (zsl_rank_at (map ent (rev r)) (ent t) (map ent Y)).
+      - unfold zlen. rewrite map_length. reflexivity.
+      - rewrite E3, map_app in Hs. exact Hs. }
+    rewrite Hr2. reflexivity.
+Qed.
+
+(* ---------------------------------------------------------------- every call *)
+Lemma lstep_sim_full l z0 st o : Sim l z0 -> Inv z0 st ->
+  let '(l', lo) := lstep l o in
+  let '(z', o') := step z0 o in
+  Sim l' z' /\ lo = o'.
+Proof.
+  intros HS HInv. pose proof (lstep_sim l z0 st o HS HInv) as H.
+  destruct o as [e s|e|a b|a b|a b|e r|e|a b r|a b r|]; cbn [lstep step covered] in *;
+    try (destruct (lstep _ _); destruct (step _ _); tauto).
+  - destruct (ladd l e s); destruct (add z0 e s); destruct H as [H1 H2]; auto.
+  - destruct (lremove l e); destruct (remove z0 e); destruct H as [H1 H2]; auto.
+  - destruct (lrem_by_score l a b); destruct (rem_by_score z0 a b); destruct H as [H1 H2]; auto.
+  - destruct (lrem_by_rank l a b); destruct (rem_by_rank z0 a b); destruct H as [H1 H2]; auto.
+  - split; [exact HS|apply (lcount_sim l z0 st a b HS HInv)].
+  - split; [exact HS|apply (lget_rank_op_sim l z0 st e r HS HInv)].
+  - destruct H as [H1 H2]; auto.
+  - split; [exact HS|apply (lget_range_sim l z0 st a b r HS HInv)].
+  - split; [exact HS|apply (lget_range_by_score_sim l z0 st a b r HS HInv)].
+  - destruct H as [H1 H2]; auto.
+Qed.
+
+Lemma lrun_sim_full ops : forall l z0 st, Sim l z0 -> Inv z0 st ->
+  let '(l', los) := lrun l ops in
+  let '(z', os) := run z0 ops in
+  Sim l' z' /\ los = os.
+Proof.
+  induction ops as [|o ops IH]; intros l z0 st HS HInv; cbn [lrun run].
+  - auto.
+  - pose proof (lstep_sim_full l z0 st o HS HInv) as H1.
+    pose proof (step_refines z0 st o HInv) as H2.
+    destruct (lstep l o) as [l1 lo]. destruct (step z0 o) as [z1 o1]. destruct (spec_step st o) as [st1 y].
+    destruct H1 as [HS1 ->]. destruct H2 as [_ HInv1].
+    specialize (IH l1 z1 st1 HS1 HInv1).
+    destruct (lrun l1 ops) as [l2 los]. destruct (run z1 ops) as [z2 os].
+    destruct IH as [HS2 ->]. auto.
+Qed.
+
+(* for ALL operation sequences and ALL height oracles the skip list with its lanes returns
+   what the level-0 model returns *)
+Theorem lane_model_results (orc : list nat) (ops : list op) :
+  snd (lrun (lzempty orc) ops) = snd (run empty ops).
+Proof.
+  pose proof (lrun_sim_full ops (lzempty orc) empty [] (Sim_empty orc) Inv_empty) as H.
+  destruct (lrun (lzempty orc) ops) as [l los]. destruct (run empty ops) as [z os].
+  exact (proj2 H).
+Qed.
+
+(* ... hence what the reference ranking returns *)
+Theorem lane_model_refines_ranking (orc : list nat) (ops : list op) :
+  snd (lrun (lzempty orc) ops) = snd (spec_run [] ops).
+Proof.
+  rewrite lane_model_results. pose proof (refines_ranking ops) as H.
+  destruct (run empty ops) as [z outs]. destruct (spec_run [] ops) as [st souts].
+  exact (proj1 H).
+Qed.
